@@ -393,7 +393,7 @@ def _wraps(big, small):
     for _ in range(3):
         if ast.dump(cur) == ast.dump(small):
             return True
-        if isinstance(cur, ast.Call) and _fid(cur.func).split('.')[-1] in VALUE_WRAPPERS and _fid(cur.func).startswith('F.'):
+        if isinstance(cur, ast.Call) and (_fid(cur.func) or '').split('.')[-1] in VALUE_WRAPPERS and (_fid(cur.func) or '').startswith('F.'):
             # F.maximum(0, X) / F.clip(X, a, b) / F.abs(X) ... around X: one value-changing application more in one arm
             inner = [a for a in cur.args if not isinstance(a, ast.Constant)]
             if len(inner) != 1:
